@@ -41,7 +41,8 @@ def install_int_shims():
     for m in (fm, gm):
         m.int = sym_int
         m.isinstance = sym_isinstance
-    _note('int/isinstance shadowed in droop.values.fixed, droop.values.guarded (identity on real ints)')
+        m.type = core.make_sym_type(sym_int)
+    _note('int/isinstance/type shadowed in droop.values.fixed, droop.values.guarded (identity on real ints)')
     for cls in (fm.Fixed, gm.Guarded):
         if not getattr(cls.__bool__, '_symex_wrapped', False):
             def wrap(f):
@@ -154,6 +155,12 @@ def install_fraction_shims():
     _note('math.gcd as seen by fractions -> exact symbolic gcd (forks over divisors); int/isinstance shadowed in fractions')
     import droop.values.rational as rm
     rm.isinstance = sym_isinstance
+    rm.type = core.make_sym_type(int)
+    # a module-level `gcd` / `math` binding in droop.values.rational sees the same exact symbolic gcd
+    if getattr(rm, 'gcd', None) is _real_math.gcd:
+        rm.gcd = sym_gcd
+    if getattr(rm, 'math', None) is _real_math:
+        rm.math = shim
 
 
 def install_misc_shims():
